@@ -454,7 +454,33 @@ func slotAgreement(c *Ctx, prop string, which map[string]bool) {
 					if !scanned && firstStore[a] < firstStore[b] && (pe[firstStore[b]].class == "CONST" || pe[firstStore[b]].class == "NODE" || pe[firstStore[b]].class == "LIT" || pe[firstStore[b]].class == "OP" || pe[firstStore[b]].class == "?") && (pe[firstStore[a]].class == "CONST" || pe[firstStore[a]].class == "OP") {
 						continue
 					}
-					if pos(a) < pos(b) {
+					// every occurrence counts: a field that is also written on an
+					// early-return path (before the other field's only write) is not
+					// out of order
+					all := func(f string) (lo, hi int) {
+						lo, hi = -1, -1
+						hasEmit := false
+						for _, i := range printed[f] {
+							if qe[i].kind == "EMIT" {
+								hasEmit = true
+							}
+						}
+						for _, i := range printed[f] {
+							if hasEmit && qe[i].kind != "EMIT" {
+								continue
+							}
+							if lo < 0 || i < lo {
+								lo = i
+							}
+							if i > hi {
+								hi = i
+							}
+						}
+						return
+					}
+					aLo, _ := all(a)
+					_, bHi := all(b)
+					if pos(a) < pos(b) || aLo < bHi {
 						c.OK(R("order"), key, token.NoPos, "same order in "+fname+" and "+tname+".String")
 					} else {
 						c.Bad(R("order"), key, token.NoPos, fmt.Sprintf("%s accepts %s before %s, %s.String prints them the other way round: the printed text does not parse back", fname, a, b, tname))
